@@ -188,16 +188,64 @@ func (a *An) keysFrom(v ssa.Value, ks *ssa.Call) bool {
 		return false
 	}
 	al, ok := fa.X.(*ssa.Alloc)
-	if !ok || al.Referrers() == nil {
+	if !ok {
+		return false
+	}
+	return a.allocFrom(al, ks, 0)
+}
+
+// allocFrom: the local variable is assigned once, from the first result of the call ks — directly, or through the
+// first result of a new single-use helper whose every non-failing return hands back such a variable.
+func (a *An) allocFrom(al *ssa.Alloc, ks *ssa.Call, depth int) bool {
+	if al.Referrers() == nil || depth > 2 {
 		return false
 	}
 	n, good := 0, false
 	for _, ref := range *al.Referrers() {
-		if st, isSt := ref.(*ssa.Store); isSt && st.Addr == ssa.Value(al) {
-			n++
-			if ex, isEx := st.Val.(*ssa.Extract); isEx && ex.Tuple == ssa.Value(ks) && ex.Index == 0 {
-				good = true
+		st, isSt := ref.(*ssa.Store)
+		if !isSt || st.Addr != ssa.Value(al) {
+			continue
+		}
+		n++
+		ex, isEx := st.Val.(*ssa.Extract)
+		if !isEx || ex.Index != 0 {
+			continue
+		}
+		if ex.Tuple == ssa.Value(ks) {
+			good = true
+			continue
+		}
+		hc, isCall := ex.Tuple.(*ssa.Call)
+		if !isCall {
+			continue
+		}
+		h := hc.Call.StaticCallee()
+		if h == nil || !a.C.isNew(h) || a.C.owner(h) == h {
+			continue
+		}
+		all, any := true, false
+		for _, r := range a.returnsOf(h) {
+			if len(r.Results) < 1 {
+				all = false
+				continue
 			}
+			rv := r.Results[0]
+			if u, isU := rv.(*ssa.UnOp); isU {
+				if hal, isAl := u.X.(*ssa.Alloc); isAl {
+					if a.allocFrom(hal, ks, depth+1) {
+						any = true
+						continue
+					}
+					// a failing return may hand back the zero value
+					if si := statusIndex(h.Signature); si >= 0 && !isNilConst(resolveLocal(r.Results[si])) {
+						continue
+					}
+				}
+			}
+			all = false
+		}
+		if all && any {
+			good = true
 		}
 	}
 	return n == 1 && good
@@ -214,7 +262,7 @@ func (a *An) counterConsumed(rule string) {
 	}
 	var inc *ssa.Store
 	for _, st := range a.DirectStoresTo(fld) {
-		if st.Parent() != fn {
+		if !a.C.within(st, fn) {
 			continue
 		}
 		if strings.HasSuffix(a.C.Term(st.Val), ".ourCounter + 1)") {
